@@ -182,11 +182,21 @@ static void cbS(SharedSandbox&)
 {}
 static void (*const kSharedFns[3])(SharedSandbox&) = { &cbS<0>, &cbS<1>, &cbS<2> };
 
+// the same with the real noop plug-in (its slot table is guarded by the plug-in's own lock)
+using SharedNoop = rlbox::rlbox_sandbox<NoopSbx>;
+using SharedNoopOwner = rlbox::sandbox_callback<void (*)(), NoopSbx>;
+static SharedNoop* g_shared_noop = nullptr;
+template<int N>
+static void cbSN(SharedNoop&)
+{}
+static void (*const kSharedNoopFns[3])(SharedNoop&) = { &cbSN<0>, &cbSN<1>, &cbSN<2> };
+
 struct ThreadResult
 {
   Ctx ctx;
   uint64_t ops = 0;
   std::unique_ptr<SharedOwner> shared_own[3];
+  std::unique_ptr<SharedNoopOwner> shared_noop_own[3];
 };
 
 template<class Sbx>
@@ -357,9 +367,20 @@ static void thread_body(int tid, const std::vector<Op>& ops, ThreadResult& R)
         // optional nested invoke on the thread's other sandbox from inside the first callback body
         SB& other = S[1 - (uint64_t)op.a[1] % 2];
         bool nest = (op.a[4] & 1) && other.created && other.own;
+        // ... or the first callback body destroys the thread's other sandbox (and the guest then calls back again)
+        bool destroy_other = !nest && (op.a[4] & 2) && other.created;
         long nested_got = -1;
         if (nest)
           nested = [&] { nested_got = BTt<Sbx>::multi(*other.sb, *other.own, 7, 1u, 1); };
+        if (destroy_other) {
+          times = times < 2 ? 2 : times;
+          nested = [&] {
+            other.own.reset();
+            other.sb->destroy_sandbox();
+            other.created = false;
+            c.probe("other_sandbox_destroyed_inside_a_callback");
+          };
+        }
         long got = 0;
         Outcome o = attempt([&] { got = BTt<Sbx>::multi(*s.sb, *s.own, a, 3u, times); });
         nested = nullptr;
@@ -412,6 +433,22 @@ static void thread_body(int tid, const std::vector<Op>& ops, ThreadResult& R)
         simsched::yield("explicit");
         break;
       case T_SHARED_REG: {
+        if (g_shared_noop) {
+          int f = (int)((uint64_t)op.a[2] % 3);
+          if (R.shared_noop_own[f])
+            break;
+          std::unique_ptr<SharedNoopOwner> fresh;
+          Outcome o = attempt([&] { fresh = std::make_unique<SharedNoopOwner>(g_shared_noop->register_callback(kSharedNoopFns[f])); });
+          c.probe("registration_on_shared_sandbox");
+          c.probe("registration_on_shared_noop_sandbox");
+          if (o == OK) {
+            int n = simsched::shared_add(f, +1);
+            R.shared_noop_own[f] = std::move(fresh);
+            if (n > 1)
+              viol("two_live_owners_for_one_function@shared_register", "a registration was accepted while another thread holds a live registration of the same function");
+          }
+          break;
+        }
         if (!g_shared)
           break;
         int f = (int)((uint64_t)op.a[2] % 3);
@@ -473,6 +510,15 @@ static void thread_body(int tid, const std::vector<Op>& ops, ThreadResult& R)
       }
       case T_SHARED_UNREG: {
         int f = (int)((uint64_t)op.a[2] % 3);
+        if (g_shared_noop) {
+          if (!R.shared_noop_own[f])
+            break;
+          simsched::shared_add(f, -1);
+          Outcome o = attempt([&] { R.shared_noop_own[f].reset(); });
+          if (o != OK)
+            viol("unregister_fails@shared_unregister", g_last_abort_msg.c_str());
+          break;
+        }
         if (!g_shared || !R.shared_own[f])
           break;
         simsched::shared_add(f, -1); // from here on another thread may legitimately be accepted
@@ -516,7 +562,7 @@ struct ThreadsWorld : World
     int nthreads = (int)r.range(2, thorough ? 8 : 5);
     int bias = (int)r.below(3);
     int mix = (int)r.below(3); // 0 all sim, 1 all noop, 2 alternate
-    int shared = r.chance(1, 3);
+    int shared = r.chance(1, 3) ? (r.chance(1, 3) ? 2 : 1) : 0; // 1: shared sim sandbox, 2: shared noop sandbox (registration only)
     p.cfg = { nthreads, bias, mix, (int64_t)(r.next() >> 2), (int64_t)r.below(2), shared };
     int n = (int)r.range(6, thorough ? 60 : 36);
     std::vector<unsigned> w = { 10, 6, 12, 6, 3, 10, 5, 4, 2, (unsigned)(shared ? 16 : 0), (unsigned)(shared ? 10 : 0), (unsigned)(r.chance(1, 2) ? 8 : 0) };
@@ -543,7 +589,7 @@ struct ThreadsWorld : World
       o.a[1] = (int64_t)r.below(2);
       o.a[2] = (int64_t)r.below(10000);
       o.a[3] = (int64_t)r.below(3);
-      o.a[4] = (int64_t)r.below(2);
+      o.a[4] = (int64_t)r.below(4);
       p.ops.push_back(o);
     }
     return p;
@@ -571,9 +617,16 @@ struct ThreadsWorld : World
     for (int t = 0; t < nthreads; t++)
       R.push_back(std::make_unique<ThreadResult>());
     int tsan_before = g_tsan_reports.load();
-    bool shared = p.cfg.size() > 5 && p.cfg[5];
+    bool shared = p.cfg.size() > 5 && p.cfg[5] == 1;
+    bool shared_noop = p.cfg.size() > 5 && p.cfg[5] == 2;
     std::unique_ptr<SharedSandbox> shared_sb;
+    std::unique_ptr<SharedNoop> shared_noop_sb;
     simsched::shared_reset();
+    if (shared_noop) {
+      shared_noop_sb = std::make_unique<SharedNoop>();
+      shared_noop_sb->create_sandbox();
+      g_shared_noop = shared_noop_sb.get();
+    }
     if (shared) {
       g_regions.clear();
       g_next_inst_id = 900000;
@@ -607,6 +660,30 @@ struct ThreadsWorld : World
     for (auto& t : th)
       t.join();
     g_yield = nullptr;
+    if (shared_noop) {
+      // quiescent: live owners hold pairwise distinct, non-null entry points
+      std::set<uintptr_t> entries;
+      int live_owners = 0;
+      for (auto& r : R)
+        for (int f = 0; f < 3; f++)
+          if (r->shared_noop_own[f] && !r->shared_noop_own[f]->is_unregistered()) {
+            live_owners++;
+            entries.insert((uintptr_t)r->shared_noop_own[f]->UNSAFE_sandboxed(*shared_noop_sb));
+          }
+      c.probe("shared_sandbox_registrations_from_several_threads");
+      if ((int)entries.size() != live_owners || entries.count(0))
+        c.violate("C13", "two_registrations_share_entry_point@shared_sandbox", "%d live owners on the shared noop sandbox hold %zu distinct entry points", live_owners, entries.size());
+      Outcome o = attempt([&] {
+        for (auto& r : R)
+          for (auto& ow : r->shared_noop_own)
+            ow.reset();
+      });
+      if (o != OK && !c.stop)
+        c.violate("C13", "release_of_owner_aborts@shared_sandbox", "%s", g_last_abort_msg.c_str());
+      attempt([&] { shared_noop_sb->destroy_sandbox(); });
+      g_shared_noop = nullptr;
+      shared_noop_sb.reset();
+    }
     if (shared) {
       // quiescent: the functions reachable from the shared sandbox must be exactly those with a live owner
       SimSbx* impl = shared_sb->get_sandbox_impl();
@@ -689,8 +766,12 @@ struct ThreadsWorld : World
     if (sr.yield_budget_exceeded)
       c.violate("C18", "no_progress_within_step_budget@run", "more than 200000 scheduling decisions");
     int races = g_tsan_reports.load() - tsan_before;
-    if (races > 0)
+    if (races > 0) {
       c.violate("C18", "data_race_reported_by_tsan@run", "%d ThreadSanitizer reports in this run (replay with TSAN_OPTIONS=log_path=stderr to see the stacks)", races);
+      // with a sandbox shared for registration, a race is (also) a race in the registration bookkeeping
+      if (shared || shared_noop)
+        c.violate("C13", "data_race_in_registration_bookkeeping_reported_by_tsan@shared_sandbox", "%d ThreadSanitizer reports in a run in which threads register and release callbacks on one sandbox", races);
+    }
   }
 
   std::string extra_summary() override
